@@ -1135,6 +1135,16 @@ func c19(c *Ctx) {
 	for k := 0; k < M2 && !c19wedged; k++ {
 		c19mixRandom(c, r)
 	}
+
+	// ---------- 8. the multi-destination writer under scripted destinations ----------
+	c19multiDirected(c)
+	M3 := 1500
+	if c.Thorough {
+		M3 = 40000
+	}
+	for k := 0; k < M3 && !c19wedged; k++ {
+		c19multiRandom(c, r)
+	}
 	if c19dir != "" {
 		os.RemoveAll(c19dir)
 	}
